@@ -94,4 +94,18 @@ PROPS = {
         "text": "Per call, the site enumeration is complete in the thorough tier (every distinct storage operation of the fault-free execution fails once); over pre-states and call arguments it is seeded sampling. Oracle: error => no new durable batch, unchanged logical dump (documents, commits, heads, index-backed reads, descriptions, introspection), no update notification, and the retry succeeds; success => state and notifications equal the fault-free twin's.",
         "note": "exhaustive is reported false: complete only per call in the thorough tier, sampled in the quick tier and over inputs. Two handle disciplines (fresh / long-lived collection handle). Document ACP not enabled.",
     },
+    "C20": {
+        "engine": "E3", "level": "exploration", "design_ref": "DESIGN.md §5 C20",
+        "technique": "deterministic simulation: event-bus recorders and a GraphQL subscription compared, call by call, with the commits that became durable in the store's committed-batch log; histories with explicit transactions, discards and injected storage faults",
+        "rule": ("histories of 5-30 steps on one node: 14 kinds of single and multi-document mutations (GraphQL and collection API), explicit transactions that commit or discard, "
+                 "storage faults armed on the n-th get/set/commit/next/... of the next call; plain, branchable, indexed and unique collections; 1-3 bus subscribers plus one filtered GraphQL subscription. "
+                 "non-trivial: >=1 notification and (>=1 failed call or >=1 explicit transaction); distinct = hash of the (call kind, #notifications, failed?) sequence"),
+        "real_vs_stub": "real: internal/db mutations, txn callbacks, event bus, GraphQL subscription handler; stub: storage faults at the corekv seam, disk = committed-batch log; not run: net (the consumer of the notifications)",
+        "assumptions": ASSUME_COMMON,
+        "probes": ["notifications", "failed_calls", "explicit_txns", "faults_fired", "subscription_results"],
+        "quick": {"count": 60, "budget_s": 60, "workers": 16},
+        "thorough": {"count": 100000, "budget_s": 1500, "workers": 16},
+        "text": "After every call: the update notifications observed are exactly the document-level (and, for branchable collections, collection-level) commits that became durable during the call, none for failed or discarded work, none before an explicit commit; each carries a cid that is the hash of its bytes and a block readable from the store; all bus subscribers see the same sequence; the filtered GraphQL subscription delivers one non-empty result per committed matching change.",
+        "note": "Whether a delete 'matches' a subscription filter is left open (0 or 1 result accepted); results with an empty dataset are not counted as results. Expected subscription matches are computed with a read at the commit (validated separately by C03).",
+    },
 }
